@@ -368,14 +368,14 @@ def _transform(op, x, y, s, names, n):
         return getattr(x, op)(), list(names)
     if op == "rbind":
         return x.rbind(y), None
-    if op == "cbind":
-        if n != y.nrow and y.nrow != 1:
-            raise _Skip()
-        return x.cbind(y), None
-    if op == "update":
-        if n != y.nrow and y.nrow != 1 and names:
-            raise _Skip()
-        return x.update(y), None
+    if op in ("cbind", "update"):
+        out = x.cbind(y) if op == "cbind" else x.update(y)
+        # an operand whose row count is neither nrow nor 1 must be rejected when it contributes a column;
+        # whatever happens, the receiver's own columns are never broadcast to someone else's length
+        if names and out.nrow != n and any(c in x and len(dict.__getitem__(out, c)) != n for c in dict.keys(out)):
+            raise Violation(f"{op} changed the row count of the receiver's own columns instead of rejecting the operand",
+                            receiver_rows=n, operand_rows=y.nrow, result_rows=out.nrow)
+        return out, None
     if not names:
         raise _Skip()
     if op == "filter": return x.filter(np.array([(i + a) % 3 != 0 for i in range(n)], dtype=bool)), list(names)
